@@ -15,11 +15,13 @@ import (
 	"strconv"
 	"strings"
 	"sync"
+	"sync/atomic"
 	"time"
 
 	"github.com/nuetzliches/hookaido/internal/app"
 	"github.com/nuetzliches/hookaido/internal/mcp"
 	"github.com/nuetzliches/hookaido/internal/queue"
+	"github.com/nuetzliches/hookaido/internal/verifhook"
 	"github.com/nuetzliches/hookaido/verif/l0"
 )
 
@@ -29,12 +31,14 @@ import (
 type Env struct {
 	Surface string
 	Managed map[string]Label
-	Dir     string
-	Clk     *l0.Clock
-	Inner   queue.Store
-	Dump    l0.Dumper
-	Inst    *app.VerifInstance
-	Admin   http.Handler // the production admin handler incl. prefix mounting
+	// ActorDenied: the configured actor policy of scoped managed operations does not admit the harness's actor
+	ActorDenied bool
+	Dir         string
+	Clk         *l0.Clock
+	Inner       queue.Store
+	Dump        l0.Dumper
+	Inst        *app.VerifInstance
+	Admin       http.Handler // the production admin handler incl. prefix mounting
 
 	mcpIn   io.WriteCloser
 	mcpOut  *bufio.Reader
@@ -79,21 +83,37 @@ func Boot(scratch, surface string, variant int, cfg l0.Cfg) (*Env, error) {
 	if err != nil {
 		return nil, err
 	}
-	e := &Env{Surface: surface, Managed: ManagedRoutes(surface, variant), Dir: dir, Clk: &l0.Clock{}}
+	e := &Env{Surface: surface, Managed: ManagedRoutes(surface, variant), ActorDenied: ActorDenied(surface, variant), Dir: dir, Clk: &l0.Clock{}}
 	e.Clk.Set(1000)
 	fail := func(err error) (*Env, error) {
 		e.Close()
 		return nil, err
 	}
 	cfgPath := filepath.Join(dir, "Hookaidofile")
-	if err := os.WriteFile(cfgPath, []byte(ConfigText("127.0.0.3:0", e.Managed)), 0o600); err != nil {
+	cfgBackend := "memory"
+	if surface == MCPDirect {
+		cfgBackend = "sqlite"
+	}
+	if err := os.WriteFile(cfgPath, []byte(ConfigText("127.0.0.3:0", e.Managed, cfgBackend, e.ActorDenied)), 0o600); err != nil {
 		return fail(err)
 	}
-	store, dump, closeFn, err := l0.OpenStore(cfg, e.Clk, filepath.Join(dir, "q.db"))
+	dbPath := filepath.Join(dir, "q.db")
+	store, dump, closeFn, err := l0.OpenStore(cfg, e.Clk, dbPath)
 	if err != nil {
 		return fail(err)
 	}
 	e.Inner, e.Dump, e.closeStore = store, dump, closeFn
+	if surface == MCPDirect {
+		// no instance: the MCP server works on the database file itself
+		if cfg.Backend != "sqlite" {
+			return fail(errors.New("mcp-direct needs the sqlite backend"))
+		}
+		publishDirectClock()
+		if err := e.startMCP(cfgPath, dbPath); err != nil {
+			return fail(err)
+		}
+		return e, nil
+	}
 	inst, err := app.VerifBoot(app.VerifOptions{ConfigPath: cfgPath, DBPath: filepath.Join(dir, "unused.db"), Store: store, Now: e.Clk.Now})
 	if err != nil {
 		return fail(fmt.Errorf("boot: %w", err))
@@ -112,37 +132,64 @@ func Boot(scratch, surface string, variant int, cfg l0.Cfg) (*Env, error) {
 			return fail(errors.New("instance has no admin_api listener address"))
 		}
 		mcpCfg := filepath.Join(dir, "Hookaidofile.mcp")
-		if err := os.WriteFile(mcpCfg, []byte(ConfigText(addr, e.Managed)), 0o600); err != nil {
+		if err := os.WriteFile(mcpCfg, []byte(ConfigText(addr, e.Managed, "memory", e.ActorDenied)), 0o600); err != nil {
 			return fail(err)
 		}
-		pinR, pinW := io.Pipe()
-		poutR, poutW := io.Pipe()
-		e.mcpAud = &lockedBuf{}
-		srv := mcp.NewServer(pinR, poutW, mcpCfg, "",
-			mcp.WithRole(mcp.RoleOperate),
-			mcp.WithPrincipal(Principal),
-			mcp.WithAuditWriter(e.mcpAud),
-			mcp.WithMutationsEnabled(true),
-			mcp.WithRuntimeControlEnabled(false),
-			mcp.WithAdminProxyEndpointAllowlist(nil),
-		)
-		e.mcpIn, e.mcpOut, e.mcpOutC = pinW, bufio.NewReaderSize(poutR, 1<<16), poutR
-		e.mcpDone = make(chan error, 1)
-		go func() {
-			err := srv.Serve(context.Background())
-			_ = poutW.Close()
-			e.mcpDone <- err
-		}()
-		rep, err := e.rpc("initialize", map[string]any{"protocolVersion": "2024-11-05", "capabilities": map[string]any{},
-			"clientInfo": map[string]any{"name": "hkv-oper", "version": "0"}})
-		if err != nil || rep.Error != nil {
-			return fail(fmt.Errorf("mcp initialize failed: %v %+v", err, rep))
-		}
-		if err := e.send("notifications/initialized", nil, true); err != nil {
+		if err := e.startMCP(mcpCfg, ""); err != nil {
 			return fail(err)
 		}
 	}
 	return e, nil
+}
+
+// startMCP starts an in-process mcp.Server the way internal/app/mcp.go builds
+// it (role operate, mutations enabled, principal, audit sink) and performs the
+// initialize handshake.
+func (e *Env) startMCP(cfgPath, dbPath string) error {
+	pinR, pinW := io.Pipe()
+	poutR, poutW := io.Pipe()
+	e.mcpAud = &lockedBuf{}
+	srv := mcp.NewServer(pinR, poutW, cfgPath, dbPath,
+		mcp.WithRole(mcp.RoleOperate),
+		mcp.WithPrincipal(Principal),
+		mcp.WithAuditWriter(e.mcpAud),
+		mcp.WithMutationsEnabled(true),
+		mcp.WithRuntimeControlEnabled(false),
+		mcp.WithAdminProxyEndpointAllowlist(nil),
+	)
+	e.mcpIn, e.mcpOut, e.mcpOutC = pinW, bufio.NewReaderSize(poutR, 1<<16), poutR
+	e.mcpDone = make(chan error, 1)
+	go func() {
+		err := srv.Serve(context.Background())
+		_ = poutW.Close()
+		e.mcpDone <- err
+	}()
+	rep, err := e.rpc("initialize", map[string]any{"protocolVersion": "2024-11-05", "capabilities": map[string]any{},
+		"clientInfo": map[string]any{"name": "hkv-oper", "version": "0"}})
+	if err != nil || rep.Error != nil {
+		return fmt.Errorf("mcp initialize failed: %v %+v", err, rep)
+	}
+	return e.send("notifications/initialized", nil, true)
+}
+
+// The clock seam of direct mode (verifhook "mcp.sqlite_now", /repo 35ea3c1) is one process-global function, while every
+// Env has its own fake clock and several run side by side in one process: direct-mode tool calls are serialised by
+// directMu, and the published function reads the clock of the call that holds the lock.
+var (
+	directMu    sync.Mutex
+	directClock atomic.Pointer[l0.Clock]
+	directOnce  sync.Once
+)
+
+func publishDirectClock() {
+	directOnce.Do(func() {
+		verifhook.Publish("mcp.sqlite_now", func() time.Time {
+			if c := directClock.Load(); c != nil {
+				return c.Now()
+			}
+			return time.Now()
+		})
+	})
 }
 
 func (e *Env) Close() {
@@ -298,6 +345,14 @@ func numField(m map[string]any, k string) int {
 // toolCall performs one tools/call on the MCP server.  A JSON-RPC level error
 // is an infrastructure error (the tool names and the framing are the harness's).
 func (e *Env) toolCall(name string, args map[string]any) (*ToolAnswer, error) {
+	if e.Surface == MCPDirect {
+		directMu.Lock()
+		directClock.Store(e.Clk)
+		defer func() {
+			directClock.Store(nil)
+			directMu.Unlock()
+		}()
+	}
 	_ = e.mcpAud.take()
 	rep, err := e.rpc("tools/call", map[string]any{"name": name, "arguments": args})
 	if err != nil {
